@@ -565,6 +565,92 @@ def analyse_next_time(tree):
   return probes
 
 
+def analyse_nnz_fix(tree):
+  """Repairs of the njmax_nnz class inside constraint.py (all absent in the original code):
+  prezero  `d.efc.J_rownnz.zero_()` + `d.efc.J_rowadr.zero_()` in make_constraint before the builders;
+  flag     a kernel launched after the builders that ORs NJMAX_NNZ when the nnz counter > njmax_nnz;
+  clamp    the same kernel sets rownnz = 0 for rows < min(nefc, njmax) with rowadr + rownnz > njmax_nnz."""
+  mc = next((s for s in tree.body if isinstance(s, ast.FunctionDef) and s.name == "make_constraint"), None)
+  if mc is None:
+    raise ExtractError("constraint.py: make_constraint not found")
+  launches = [n for n in ast.walk(mc) if _is_call(n, "launch") or _is_call(n, "launch_tiled")]
+  first_builder = min((n.lineno for n in launches if n.args and isinstance(n.args[0], ast.Call)), default=None)
+  zeroed = {}
+  for n in ast.walk(mc):
+    if _is_call(n, "zero_") and isinstance(n.func, ast.Attribute):
+      t = src(n.func.value)
+      if t in ("d.efc.J_rownnz", "d.efc.J_rowadr"):
+        zeroed[t] = n.lineno
+  if len(zeroed) == 1:
+    raise ExtractError(f"make_constraint: only {list(zeroed)} is zeroed")
+  prezero = len(zeroed) == 2
+  if prezero and (first_builder is None or max(zeroed.values()) > first_builder):
+    raise ExtractError("make_constraint: row metadata zeroed after a builder launch")
+  # kernels that OR NJMAX_NNZ
+  flaggers = []
+  for name, fn in _kernel_defs(tree):
+    for c in _find_calls(fn, "atomic_or"):
+      if "NJMAX_NNZ" in src(c):
+        flaggers.append((name, fn))
+    for st in ast.walk(fn):
+      if isinstance(st, ast.Assign) and "NJMAX_NNZ" in src(st.value) and "overflow" in src(st.targets[0]):
+        flaggers.append((name, fn))
+  if not flaggers:
+    return {"flag": False, "prezero": prezero, "clamp": False}
+  if len(flaggers) != 1:
+    raise ExtractError(f"constraint.py: several kernels set NJMAX_NNZ: {[n for n, _ in flaggers]}")
+  name, fn = flaggers[0]
+  body = [st for st in fn.body if not (isinstance(st, ast.Expr) and isinstance(st.value, ast.Constant))]
+  # worldid, efcid = wp.tid(); cnt = efc_nnz_in[worldid]; if cnt <= njmax_nnz_in: return; if efcid == 0: ...or...; if efcid < min(nefc, njmax): if adr + rnz > njmax_nnz: rnz = 0
+  if len(body) not in (4, 5):
+    raise ExtractError(f"{name}: unrecognised shape ({len(body)} statements)")
+  tid, cnt, ret, orr = body[:4]
+  if not (isinstance(tid, ast.Assign) and _is_call(tid.value, "tid") and src(tid.targets[0]) in ("(worldid, efcid)", "worldid, efcid")):
+    raise ExtractError(f"{name}: thread ids")
+  if not (isinstance(cnt, ast.Assign) and src(cnt.value) == "efc_nnz_in[worldid]"):
+    raise ExtractError(f"{name}: counter read `{src(cnt)}`")
+  cv = _name(cnt.targets[0])
+  if not (isinstance(ret, ast.If) and _only_flag_and_return(ret.body) and not ret.orelse and src(ret.test) == f"{cv} <= njmax_nnz_in"):
+    raise ExtractError(f"{name}: expected `if {cv} <= njmax_nnz_in: return`, found `{src(ret.test) if isinstance(ret, ast.If) else src(ret)}`")
+  if not (isinstance(orr, ast.If) and src(orr.test) == "efcid == 0" and not orr.orelse and _sets_bit([s for s in orr.body if not isinstance(s, ast.If)], "NJMAX_NNZ")):
+    raise ExtractError(f"{name}: NJMAX_NNZ not set by exactly one thread per world")
+  clamp = False
+  if len(body) == 5:
+    cl = body[4]
+    want_outer = "efcid < wp.min(nefc_in[worldid], njmax_in)"
+    ok = isinstance(cl, ast.If) and src(cl.test) == want_outer and not cl.orelse and len(cl.body) == 1 and isinstance(cl.body[0], ast.If)
+    if ok:
+      inner = cl.body[0]
+      ok = (
+        src(inner.test) == "efc_J_rowadr_in[worldid, efcid] + efc_J_rownnz_out[worldid, efcid] > njmax_nnz_in"
+        and not inner.orelse and len(inner.body) == 1 and src(inner.body[0]) == "efc_J_rownnz_out[worldid, efcid] = 0"
+      )
+    if not ok:
+      raise ExtractError(f"{name}: unrecognised clamp `{src(cl)[:120]}`")
+    clamp = True
+  # launched once, after every builder, over (nworld, njmax), under `if m.is_sparse`
+  mine = [n for n in launches if n.args and _name(n.args[0]) == name]
+  if len(mine) != 1:
+    raise ExtractError(f"make_constraint: {name} launched {len(mine)} times")
+  if any(n.lineno > mine[0].lineno for n in launches if n is not mine[0]):
+    raise ExtractError(f"make_constraint: {name} is not the last launch")
+  kw = {k.arg: src(k.value) for k in mine[0].keywords}
+  if kw.get("dim") != "(d.nworld, d.njmax)":
+    raise ExtractError(f"make_constraint: {name} launched with dim={kw.get('dim')}")
+  params = [a.arg for a in fn.args.args]
+  actual = [src(x) for x in ast.literal_eval("[]")] if False else None
+  ins = next((k.value for k in mine[0].keywords if k.arg == "inputs"), None)
+  outs = next((k.value for k in mine[0].keywords if k.arg == "outputs"), None)
+  if ins is None or outs is None:
+    raise ExtractError(f"make_constraint: {name} launch without inputs/outputs")
+  actual = dict(zip(params, [src(x) for x in list(ins.elts) + list(outs.elts)]))
+  expect = {"njmax_in": "d.njmax", "njmax_nnz_in": "d.njmax_nnz", "nefc_in": "d.nefc", "efc_J_rowadr_in": "d.efc.J_rowadr", "efc_nnz_in": "efc_nnz", "efc_J_rownnz_out": "d.efc.J_rownnz", "overflow_out": "d.overflow"}
+  for k, v in expect.items():
+    if actual.get(k) != v:
+      raise ExtractError(f"make_constraint: {name} argument {k} = {actual.get(k)}, expected {v}")
+  return {"flag": True, "prezero": prezero, "clamp": clamp}
+
+
 def analyse_collision_host(tree):
   """collision(m, d): does the host function return before any allocation when naconmax == 0 ?
   (then needed contacts are dropped without any counter being bumped)"""
@@ -629,7 +715,7 @@ def extract():
   b, p = analyse_serial("_compact_dofs", cdf, "nvmax", "NVMAX")
   builders.append(b)
   probes = analyse_next_time(_parse("forward.py")) + [p]
-  return builders, probes, {"collision_zero_cap_skip": zskip}
+  return builders, probes, {"collision_zero_cap_skip": zskip, "nnz_fix": analyse_nnz_fix(ct)}
 
 
 def _coq_bool(b):
@@ -677,6 +763,10 @@ def to_coq(builders, probes, host):
   lines.append("")
   lines.append("(* collision_driver.collision returns before any allocation when d.naconmax == 0 *)")
   lines.append(f"Definition collision_zero_cap_skip : bool := {_coq_bool(host['collision_zero_cap_skip'])}.")
+  fx = host["nnz_fix"]
+  lines.append("")
+  lines.append("(* repairs of the njmax_nnz class found in make_constraint: direct flag / metadata zeroed first / clamp *)")
+  lines.append(f"Definition nnz_fix : nnzfix := mkFix {_coq_bool(fx['flag'])} {_coq_bool(fx['prezero'])} {_coq_bool(fx['clamp'])}.")
   lines.append("")
   return "\n".join(lines)
 
